@@ -12,7 +12,7 @@
 EXTENDS Integers, Sequences, FiniteSets, TLC
 
 Classes == {"static", "stack", "heap", "data"}
-Releasing == {"del_raw", "dealloc", "dealloc_raw"}             \* release any heap object they are given
+Releasing == {"del_raw", "dealloc", "dealloc_raw", "dealloc_root"}             \* release any heap object they are given
 Managed   == {"del", "del_root"}                                \* go through the collector's registry
 InPlace   == {"resize", "assign", "concat", "push", "pop", "popat",     \* String / Tuple reallocate their own storage
               "append", "printto", "lookfrom", "lookempty", "scanshow"}  \* ... also through formatted writes and look / scan into a String
